@@ -496,7 +496,7 @@ pub fn matcher_body(uid: u16, pred: u32, idx: u32) -> bool {
                 })
             });
         }
-        matches!(t.cur_fault, Some(Fault::MatcherPanic { uid: u }) if u == uid)
+        matches!(t.cur_fault, Some(Fault::MatcherPanic { uid: u }) | Some(Fault::MatcherMustNotRun { uid: u }) if u == uid)
     })
     .unwrap_or(false);
     if fault {
